@@ -248,6 +248,39 @@ fn is_v(t: ValueType) -> bool {
     t == ValueType::Value || t == ValueType::Indirection
 }
 
+/// What is left of key `k` once every weak tombstone has met the value directly beneath it - the state
+/// all later compactions converge to, whatever their order (stack of value bytes, oldest first; a weak
+/// tombstone with nothing beneath it is nothing). `older` is the newest entry of the key in the levels
+/// beneath; under the discipline the versions beneath alternate too, so a W there has its V beneath it
+/// (contributes nothing) and a V there stands for exactly itself.
+fn settle<const N: usize>(list: &[Option<E>; N], k: u8, older: Option<E>) -> ([u8; 8], usize) {
+    let mut st = [0u8; 8];
+    let mut n = 0usize;
+    if let Some(o) = older {
+        if is_v(o.t) {
+            st[0] = o.v;
+            n = 1;
+        }
+    }
+    let mut i = N;
+    while i > 0 {
+        i -= 1;
+        if let Some(e) = list[i] {
+            if e.k == k {
+                if is_w(e.t) {
+                    if n > 0 {
+                        n -= 1;
+                    }
+                } else {
+                    st[n] = e.v;
+                    n += 1;
+                }
+            }
+        }
+    }
+    (st, n)
+}
+
 fn o13_1<const N: usize>() {
     o13_1_shape::<N>(None);
 }
@@ -310,6 +343,17 @@ fn o13_1_shape<const N: usize>(keys: Option<[u8; N]>) {
     let after = resolve(&out, probe, older);
     assert!(before == after, "weak delete: the key's latest view changed (stays visible or comes back)");
     assert!(is_subsequence(&input, &out), "output must be a subsequence of the input");
+    // ... and it must not come back later either: what the key settles to once the remaining weak tombstones
+    // have met their values (in this or any later compaction) is the same before and after this pass
+    let (sb, nb) = settle(&inp, probe, older);
+    let (sa, na) = settle(&out, probe, older);
+    assert!(nb == na, "weak delete: a value comes back once the remaining pairs have cancelled (a weak tombstone guarding a lower level was dropped)");
+    let mut j = 0;
+    while j < 3 {
+        assert!(j >= nb || sb[j] == sa[j], "weak delete: the key settles to a different value");
+        j += 1;
+    }
+    kani::cover!(nb == 1 && older.is_some(), "settles to one value with something beneath");
 
     let n_out = out.iter().flatten().count();
     kani::cover!(N >= 2 && n_out + 2 <= N && is_w(input[0].t) && !evict, "W and V dropped together");
